@@ -33,6 +33,11 @@ NameOp(bs) ==
     [] bs = <<42>> -> <<18>>  [] bs = <<47>> -> <<19>>  [] bs = <<62>> -> <<21>>  [] bs = <<37>> -> <<61>>
     [] OTHER -> bs
 
+\* an unsigned number's canonical signed spelling: leading zero bytes stripped, one kept when the top bit is set
+PosCanon(bs) == LET f == FirstNonZero(bs, 1) IN
+                IF f > Len(bs) THEN <<>>
+                ELSE LET t == SubSeq(bs, f, Len(bs)) IN IF t[1] >= 128 THEN <<0>> \o t ELSE t
+
 \* truthy() of the stepping evaluator in the fixed integer mode, on a value whose
 \* atoms came from CLVM: canonical integers are numbers (zero is impossible but for
 \* the empty atom), everything else is a byte string, truthy iff non-empty
@@ -56,8 +61,8 @@ StepFn(S, HeadMode) ==
          IF IsAtom(x) THEN
             IF BytesOf(x) = <<>> THEN <<FRes(Nil)>> \o S
             ELSE IF ~IsCanon(BytesOf(x))
-                 THEN \* Atom / QuotedString spelling is re-read as a signed number first (one machine step)
-                      <<FStep(A(Canon(BytesOf(x))), env)>> \o Tail(S)
+                 THEN \* Atom / QuotedString spelling is re-read as an unsigned number first (one machine step)
+                      <<FStep(A(PosCanon(BytesOf(x))), env)>> \o Tail(S)
             ELSE LET r == Lookup(BytesOf(x), env) IN IF r[1] = "ok" THEN <<FRes(r[2])>> \o S ELSE FailS
          ELSE
             LET a == First(x) b == Rest(x) IN
@@ -71,7 +76,9 @@ StepFn(S, HeadMode) ==
                     ELSE IF IsPair(hv[2]) THEN FailS
                     ELSE AfterHead(BytesOf(hv[2]), b, env, S)
             ELSE IF BytesOf(a) = <<>> THEN FailS
-            ELSE AfterHead(IF HeadMode = "sym" THEN NameOp(BytesOf(a)) ELSE BytesOf(a), b, env, S)
+            ELSE LET h == IF HeadMode = "sym" THEN NameOp(BytesOf(a)) ELSE BytesOf(a) IN
+                 \* bytes that are not the minimal spelling of a number are not an opcode
+                 IF ~IsCanon(h) THEN FailS ELSE AfterHead(h, b, env, S)
     [] t[1] = "Op" ->
          IF t[5] = <<>> THEN <<FOpN(t[2], t[3], t[4])>> \o Tail(S)
          ELSE LET n == Len(t[5]) IN
